@@ -101,3 +101,50 @@ package processors
 //@ requires [field-built] field != nil
 //@ assigns nothing
 //@ ensures [only-prop-tagged] ok == TagHas(field.StructField.Tag, definition.PropTag)
+
+// ---- candidate collection (C06, C07) ---------------------------------------------------------------------------------
+// reflect.Kind: Interface 20, Pointer 22, Slice 23.
+
+//@ func isActualKind
+//@ property C06
+//@ requires [type-given] p != nil
+//@ assigns nothing
+//@ ensures [direct-or-slice-of-kind] result1 == (p.Kind() == kind || (p.Kind() == 23 && RElemType(p).Kind() == kind))
+//@ ensures [actual-type] implies(result1, result0 == ite(p.Kind() == kind, p, RElemType(p)))
+//@ ensures [none] implies(!result1, result0 == nil)
+
+//   Wire(p): the property is a wire point; ByName(p): it names its component; TargetT(p): the type candidates must match
+//@ spec func Wire(p *component_definition.Property) bool = p.Tag == definition.InjectTag
+//@ spec func KindOf(p *component_definition.Property) int = p.Type.Kind()
+//@ spec func ByName(p *component_definition.Property) bool = Wire(p) && p.TagVal != "" && (KindOf(p) == 22 || KindOf(p) == 20)
+//@ spec func ByPtrType(p *component_definition.Property) bool = Wire(p) && p.TagVal == "" && (KindOf(p) == 22 || (KindOf(p) == 23 && RElemType(p.Type).Kind() == 22))
+//@ spec func ByIfaceType(p *component_definition.Property) bool = Wire(p) && p.TagVal == "" && !ByPtrType(p) && (KindOf(p) == 20 || (KindOf(p) == 23 && RElemType(p.Type).Kind() == 20))
+//@ spec func TargetT(p *component_definition.Property) reflect.Type = ite(KindOf(p) == 23, RElemType(p.Type), p.Type)
+
+//   PosSnap[k][n]: ghost witness: position of definition n among the candidates collected for property k
+//@ ghost var PosSnap map[int]map[string]int
+
+//@ func (*dependencyAwarePostProcessors).PostProcessProperties
+//@ property C06 C07 C09
+//@ ghost after call GetMetas: PosSnap = store(PosSnap, _idx, MetasPos)
+//@ requires [registry-set] d.Registry != nil && DefInv(d.Registry)
+//@ requires [properties-wellformed] forall(k, int, implies(0 <= k && k < len(properties), PointOK(properties[k])), properties[k])
+//@ requires [properties-distinct] forall(j, int, forall(k, int, implies(0 <= j && j < k && k < len(properties), properties[j] != properties[k])))
+//@ assigns anyfield(component_definition.Property, Injects), MetasPos, PosSnap
+//@ ensures [no-error] result1 == nil
+//@ ensures [by-name-candidate] forall(k, int, implies(0 <= k && k < len(properties) && ByName(properties[k]), len(properties[k].Injects) == len(old(properties[k].Injects)) + 1 && properties[k].Injects[len(properties[k].Injects) - 1] == ite(d.Registry.DefDom[properties[k].TagVal] && RAssignable(RTypeOf(d.Registry.Def[properties[k].TagVal].Value), properties[k].Type), d.Registry.Def[properties[k].TagVal], nil)), properties[k])
+//@ ensures [by-type-sound] forall(k, int, forall(i, int, implies(0 <= k && k < len(properties) && (ByPtrType(properties[k]) || ByIfaceType(properties[k])) && len(old(properties[k].Injects)) <= i && i < len(properties[k].Injects), MetaOK(properties[k].Injects[i]) && d.Registry.DefDom[properties[k].Injects[i].Name()] && d.Registry.Def[properties[k].Injects[i].Name()] == properties[k].Injects[i] && ite(ByPtrType(properties[k]), RTypeOf(properties[k].Injects[i].Value) == TargetT(properties[k]), RImplements(RTypeOf(properties[k].Injects[i].Value), TargetT(properties[k]))))))
+//@ ensures [by-type-complete] forall(k, int, forall(n, string, implies(0 <= k && k < len(properties) && (ByPtrType(properties[k]) || ByIfaceType(properties[k])) && d.Registry.DefDom[n] && ite(ByPtrType(properties[k]), RTypeOf(d.Registry.Def[n].Value) == TargetT(properties[k]), RImplements(RTypeOf(d.Registry.Def[n].Value), TargetT(properties[k]))), 0 <= PosSnap[k][n] && len(old(properties[k].Injects)) + PosSnap[k][n] < len(properties[k].Injects) && properties[k].Injects[len(old(properties[k].Injects)) + PosSnap[k][n]] == d.Registry.Def[n])))
+//@ ensures [candidates-assignable] forall(k, int, forall(i, int, implies(0 <= k && k < len(properties) && Wire(properties[k]) && len(old(properties[k].Injects)) <= i && i < len(properties[k].Injects) && properties[k].Injects[i] != nil, RAssignable(RTypeOf(properties[k].Injects[i].Value), TargetT(properties[k])))))
+//@ ensures [earlier-candidates-kept] forall(k, int, forall(i, int, implies(0 <= k && k < len(properties) && 0 <= i && i < len(old(properties[k].Injects)), len(properties[k].Injects) >= len(old(properties[k].Injects)) && properties[k].Injects[i] == oldat(old(properties[k].Injects), i))))
+//@ ensures [others-untouched] forall(k, int, implies(0 <= k && k < len(properties) && !ByName(properties[k]) && !ByPtrType(properties[k]) && !ByIfaceType(properties[k]), properties[k].Injects == old(properties[k].Injects)), properties[k]) && forall(p, *component_definition.Property, implies(forall(k, int, implies(0 <= k && k < len(properties), properties[k] != p)), p.Injects == old(p.Injects)))
+//@ loop 1 invariant [by-name-candidate] forall(k, int, implies(0 <= k && k < _done && ByName(properties[k]), len(properties[k].Injects) == len(old(properties[k].Injects)) + 1 && properties[k].Injects[len(properties[k].Injects) - 1] == ite(d.Registry.DefDom[properties[k].TagVal] && RAssignable(RTypeOf(d.Registry.Def[properties[k].TagVal].Value), properties[k].Type), d.Registry.Def[properties[k].TagVal], nil)), properties[k])
+//@ loop 1 invariant [by-type-sound] forall(k, int, forall(i, int, implies(0 <= k && k < _done && (ByPtrType(properties[k]) || ByIfaceType(properties[k])) && len(old(properties[k].Injects)) <= i && i < len(properties[k].Injects), MetaOK(properties[k].Injects[i]) && d.Registry.DefDom[properties[k].Injects[i].Name()] && d.Registry.Def[properties[k].Injects[i].Name()] == properties[k].Injects[i] && ite(ByPtrType(properties[k]), RTypeOf(properties[k].Injects[i].Value) == TargetT(properties[k]), RImplements(RTypeOf(properties[k].Injects[i].Value), TargetT(properties[k]))))))
+//@ loop 1 invariant [by-type-complete] forall(k, int, forall(n, string, implies(0 <= k && k < _done && (ByPtrType(properties[k]) || ByIfaceType(properties[k])) && d.Registry.DefDom[n] && ite(ByPtrType(properties[k]), RTypeOf(d.Registry.Def[n].Value) == TargetT(properties[k]), RImplements(RTypeOf(d.Registry.Def[n].Value), TargetT(properties[k]))), 0 <= PosSnap[k][n] && len(old(properties[k].Injects)) + PosSnap[k][n] < len(properties[k].Injects) && properties[k].Injects[len(old(properties[k].Injects)) + PosSnap[k][n]] == d.Registry.Def[n])))
+//@ loop 1 invariant [candidates-assignable] forall(k, int, forall(i, int, implies(0 <= k && k < _done && Wire(properties[k]) && len(old(properties[k].Injects)) <= i && i < len(properties[k].Injects) && properties[k].Injects[i] != nil, RAssignable(RTypeOf(properties[k].Injects[i].Value), TargetT(properties[k])))))
+//@ loop 1 invariant [earlier-candidates-kept] forall(k, int, forall(i, int, implies(0 <= k && k < _done && 0 <= i && i < len(old(properties[k].Injects)), len(properties[k].Injects) >= len(old(properties[k].Injects)) && properties[k].Injects[i] == oldat(old(properties[k].Injects), i))))
+//@ loop 1 invariant [bounds] 0 <= _done && _done <= len(properties) && DefInv(d.Registry)
+//@ loop 1 invariant [inputs-kept] forall(k, int, implies(0 <= k && k < len(properties), properties[k] == oldat(properties, k)))
+//@ loop 1 invariant [rest-untouched] forall(k, int, implies(_done <= k && k < len(properties), properties[k].Injects == old(properties[k].Injects)), properties[k])
+//@ loop 1 invariant [others-untouched] forall(k, int, implies(0 <= k && k < len(properties) && !ByName(properties[k]) && !ByPtrType(properties[k]) && !ByIfaceType(properties[k]), properties[k].Injects == old(properties[k].Injects)), properties[k]) && forall(p, *component_definition.Property, implies(forall(k, int, implies(0 <= k && k < len(properties), properties[k] != p)), p.Injects == old(p.Injects)))
+//@ loop 1 invariant [old-lists-kept] forall(k, int, forall(i, int, implies(0 <= k && k < len(properties) && 0 <= i && i < len(old(properties[k].Injects)), oldat(old(properties[k].Injects), i) == old(properties[k].Injects)[i])))
